@@ -19,7 +19,7 @@ KEY_PRE1D = "pcovr_precomputed_1d_y_sample_space"
 def gen_groups(ctx):
     """A group = one dataset, one regressor, one mixing, one space, every k."""
     rng = ctx.rng
-    ngroups = 70 if ctx.quick else 900
+    ngroups = 140 if ctx.quick else 900
     groups = []
     fams = list(P.FAMILIES)
     for gi in range(ngroups):
@@ -164,7 +164,7 @@ def run(ctx):
             if "error" not in rec:
                 sample = P.is_sample(ds, cfg)
                 env, mn, S_full, _ = P.build_env(ds, rec["Ym"], rec["Yh"], rec["W"], cfg, sample)
-                g = P.gate(mn, S_full, cfg["k"], sample=sample)
+                g = P.gate(mn, S_full, cfg["k"], sample=sample) or P.regressor_gate(ds["X"], rec["W"], rec["Yh"])
                 if g is None:
                     writer.add(cid, ds["n"], ds["m"], ds["p"], cfg["k"], ds["q"], sample, env, rec["obs"])
                 else:
@@ -280,7 +280,7 @@ def replay(ctx, obj):
     if "error" not in rec:
         sample = P.is_sample(ds, cfg)
         _, mn, S_full, _ = P.build_env(ds, rec["Ym"], rec["Yh"], rec["W"], cfg, sample)
-        g = P.gate(mn, S_full, cfg["k"], sample=sample)
+        g = P.gate(mn, S_full, cfg["k"], sample=sample) or P.regressor_gate(ds["X"], rec["W"], rec["Yh"])
     msg = oracle(ds, cfg, rec, g, S_full)
     print("replay:", msg or "property holds on this input now")
     return 1 if msg else 0
